@@ -1539,6 +1539,8 @@ def dict_method(ex, d, meth, args, kw, st):
 def arr_method(ex, v, meth, args, kw, st):
     if meth == 'copy':
         return np_copy(ex, [v], kw, st)
+    if meth == 'nonzero' and not args and not kw:
+        return np_nonzero(ex, [v], {}, st)
     if meth in ('ravel', 'flatten') and isinstance(v, SArr) and not args and not kw:
         # every element, as a flat collection (the order is not modelled: a bag)
         out = SBag(v.shape, lambda p: True, snap(v), v.kind)
